@@ -580,7 +580,7 @@ def run_instance(inst, max_exec=200000, bound=None, want=("C04", "C05", "C06", "
             history_dependent = True
             if "C08" in want:
                 viols.setdefault(f"C08|decisions-depend-on-earlier-generations-of-the-object|{inst.family}", (f"{shown}: the SAME parsed object generating again: after the answers {rng.script} (which an earlier generation of this object had received up to the last one) it asks {len(rng.points)} question(s) instead of at least {len(rng.script)}: the decisions offered depend on the object's earlier generations", list(rng.script)))
-            continue
+            # the execution itself is complete (default answers after the point of divergence): the per-execution oracles apply
         stats["execs"] += 1
         stats["points"] += len(rng.points)
         stats["maxdepth"] = max(stats["maxdepth"], len(rng.points))
